@@ -11,7 +11,7 @@ LEVEL = "model_checking"
 RULE = ("bounded-exhaustive: identity hashes (boundary / unreduced / top-bit patterns / miss runs / the all-zero hash) x master scalars {1,2,r-1,r,r+1,2^256-1,filler} "
         "(written into the struct and through masterkey_unmarshal) x requested key lengths {0,1,16,32,1000} x every random-stream answer sequence with <= 1 deviation "
         "(<= 2 thorough) in the first 8 digit requests; a recording hash callback captures exactly what encrypt and decrypt feed it. oracle: the two byte strings are "
-        "identical and equal compress(Q_id) || compress(rP) || big-endian(e(sQ_id, rP)) recomputed through the C pairing API (and by the Python model with chosen "
+        "identical and equal compress(Q_id) || compress(rP) || big-endian(e(sQ_id, rP)) recomputed through the library's C++ pairing (and by the Python model with chosen "
         "discrete logs on a subset); keygen = [s]Q_id by Python double-and-add; length and output pointer passed through unchanged; negatives: other identity, other "
         "master scalar (mod r), ciphertext + G2 give different hashed bytes. non-trivial = any case (no trivial inputs)")
 ASSUMPTIONS = ["single pairings are decided by C01, hash-to-curve by C10", "the hash function is the caller's: only its input and the pass-through of (pointer, length) are checked"]
@@ -116,7 +116,8 @@ def eval_case(case):
         msgs.append("derived symmetric keys differ")
     # recompute the hash input independently: compress(Q) || compress(rP) || e(sQ, rP)
     rp_aff = ct.raw[:L.size["g2affine"]]
-    e = L.out("embedded_pairing_bls12_381_pairing", 576, sk.raw[:L.size["g1affine"]], rp_aff)
+    # the C++ pairing (decided by C01), not the C wrapper: a defect of the wrapper is C19's business, not this property's
+    e = L.out("vk_pairing_affine", 576, sk.raw[:L.size["g1affine"]], rp_aff)
     exp = ref.encode_point(Q, 1, True) + ref.encode_point(L.unaff(rp_aff, 2), 2, True) + ref.f12_bytes(L.unf12(e))
     if de != exp:
         msgs.append("encrypt's hash input is not compress(Q_id)||compress(rP)||e(sQ_id,rP)")
